@@ -61,6 +61,65 @@ Definition db_spec (l : list (handle * coll)) (db : string) : doc :=
 
 Definition by_name (a b : doc) : comparison := order a b [("name", false)].
 
+(* Templates of specification documents as the translator reads them from the
+   bson.D literals of transaction.go (Gen/Listing.v): literal leaves carry
+   their BSON type, any other Go expression is kept as source text (TExpr)
+   and given its value by an environment; TUnknown marks what the translator
+   could not classify — in particular an untyped Go integer literal, which is
+   not a BSON value. *)
+Inductive tval : Type :=
+| TStr (s : string)
+| TBool (b : bool)
+| TInt32 (z : Z)
+| TInt64 (z : Z)
+| TDoc (l : list (string * tval))
+| TExpr (src : string)
+| TUnknown (src : string).
+
+Fixpoint inst (env : string -> option value) (t : tval) : option value :=
+  match t with
+  | TStr s => Some (VString s)
+  | TBool b => Some (VBool b)
+  | TInt32 z => Some (VInt32 z)
+  | TInt64 z => Some (VInt64 z)
+  | TDoc l =>
+      option_map VDoc
+        ((fix go (l : list (string * tval)) : option doc :=
+            match l with
+            | [] => Some []
+            | (k, t) :: r =>
+                match inst env t, go r with
+                | Some v, Some d => Some ((k, v) :: d)
+                | _, _ => None
+                end
+            end) l)
+  | TExpr src => env src
+  | TUnknown _ => None
+  end.
+
+Definition inst_doc (env : string -> option value) (l : list (string * tval)) : option doc :=
+  match inst env (TDoc l) with Some (VDoc d) => Some d | _ => None end.
+
+(* every leaf of a template is a BSON-typed literal or a named expression *)
+Fixpoint tval_typed (t : tval) : bool :=
+  match t with
+  | TDoc l => (fix go (l : list (string * tval)) : bool :=
+                 match l with [] => true | (_, t) :: r => tval_typed t && go r end) l
+  | TUnknown _ => false
+  | _ => true
+  end.
+
+(* the Go expressions of the two loops and what they evaluate to *)
+Definition coll_env (h : handle) (src : string) : option value :=
+  if String.eqb src "ns[1]" then Some (VString (snd h))
+  else if String.eqb src "ns.String()" then Some (VString (handle_string h))
+  else None.
+
+Definition db_env (l : list (handle * coll)) (db : string) (src : string) : option value :=
+  if String.eqb src "name" then Some (VString db)
+  else if String.eqb src "empty" then Some (VBool (db_empty l db))
+  else None.
+
 Section DriverExt.
   Variable matchf : doc -> doc -> res bool.
   Variable applyf : doc -> doc -> doc -> bool -> list doc -> Z -> res (doc * list (string * value)).
